@@ -147,7 +147,11 @@ impl Number {
         let one = BigInt::one();
         if den == one {
             let exp: Option<i64> = num.as_int();
-            Ok(self.powi(exp.unwrap() as i32))
+            let exp = exp.unwrap() as i32;
+            if exp < 0 && (self.value == Numeric::zero() || self.value == Numeric::Float(0.0)) {
+                return Err("Division by zero".to_string());
+            }
+            Ok(self.powi(exp))
         } else if num == one {
             let exp: Option<i64> = den.as_int();
             self.root(exp.unwrap() as i32)
